@@ -126,8 +126,8 @@ def check_chem(case) -> Result:
         except ValueError as e:
             r.fail('concatenation of two written formulas parses', 'C15/additivity/parse-raises', error=str(e)[:150], second=s2, **ctx)
             return r
-        tot = dict(p1)
-        for k, v in p2.items():
+        tot = dict(exp)
+        for k, v in c2.items():
             tot[k] = tot.get(k, 0) + v
         if not _same_comp(both, tot):
             r.fail('the composition of a concatenation is the sum of the compositions', 'C15/additivity/wrong' + ('/separated' if sep else ''),
@@ -159,8 +159,9 @@ def _glycan_names():
 _COUNT = re.compile(r'[+\-.0-9]*')
 
 
-def tokenisations(s, limit=3):
-    """all ways to read s as (name, count)* with names/synonyms of the table; stops after `limit`"""
+def tokenisations(s, limit=3, explicit=False):
+    """all ways to read s as (name, count)* with names/synonyms of the table; stops after `limit`; explicit: every name is
+    followed by its count"""
     names = sorted(_glycan_names(), key=len, reverse=True)
     out = []
 
@@ -177,6 +178,8 @@ def tokenisations(s, limit=3):
                 cnt = m.group(0)
                 # the count is maximal (a parser reading count characters cannot stop early)
                 if cnt == '':
+                    if explicit:
+                        continue
                     val = 1
                 else:
                     try:
@@ -237,6 +240,31 @@ def check_glycan(case) -> Result:
             again = pt.parse_glycan_formula(s)
             if not _same_comp_typed(again, first):
                 r.fail('parsing the same glycan string twice gives the same result', 'C15/glycan/parse-result-shared-between-calls', **ctx)
+    else:
+        # several readings (names may stand without a count): what the parser returns is one of them, and when every name is
+        # required to carry its count - as the writer always does - and that leaves one reading, it is that one
+        many = tokenisations(s, limit=200)
+        if len(many) < 200:
+            def as_dict(tk):
+                o = {}
+                for nm, v in tk:
+                    o[nm] = o.get(nm, 0) + v
+                return o
+            try:
+                back = pt.parse_glycan_formula(s)
+            except ValueError:
+                back = None
+            if back is not None:
+                if not any(_same_comp_typed(back, as_dict(tk)) or _same_comp(back, as_dict(tk)) and all(v != 0 for v in back.values())
+                           for tk in many):
+                    r.fail('the parse of a glycan formula is one of its readings', 'C15/glycan/parse-is-no-reading', got=back,
+                           readings=[as_dict(tk) for tk in many[:4]], **ctx)
+                explicit = tokenisations(s, limit=3, explicit=True)
+                if len(explicit) == 1:
+                    r.classes.append('one-reading-with-explicit-counts')
+                    if not _same_comp_typed(back, d):
+                        r.fail('parse(write(d)) == d when one reading gives every name its count', 'C15/glycan/roundtrip/explicit-count-reading',
+                               got=back, **ctx)
     # separated form is always unambiguous
     if d:
         s_sep = pt.write_glycan_formula(d, sep=' ')
@@ -286,6 +314,19 @@ def check_glycan(case) -> Result:
     except ValueError:
         pass
     if unamb:
+        try:
+            got = pt.glycan_comp(s)
+            if not _same_comp(got, exp_comp):
+                r.fail('composition of a glycan formula string is the count-weighted sum over monosaccharides', 'C15/glycan/comp-string',
+                       got=got, expected=exp_comp, **ctx)
+            if d:
+                cf = pt.convert_glycan_formula_to_chem_formula(s)
+                if not _same_comp(pt.parse_chem_formula(cf), exp_comp):
+                    r.fail('the chemical formula written for a glycan formula string has the composition of the glycan',
+                           'C15/glycan/chem-formula-of-string', formula=cf, expected=exp_comp, **ctx)
+        except ValueError as e:
+            if greedy_reading(s) == [nm for nm, _v in toks[0]]:
+                r.fail('composition of an unambiguous glycan string', 'C15/glycan/comp-string-raises', error=str(e)[:150], **ctx)
         try:
             m1 = pt.glycan_mass(s)
             m2 = pt.glycan_mass(d)
@@ -347,15 +388,40 @@ def glycan_pair_cases():
             if a == b:
                 continue
             for ca in counts:
-                for cb in (1, 3):
+                for cb in counts:
                     yield {'glycan': [[a, ca], [b, cb]]}
+
+
+def glycan_context_cases():
+    """the pairs whose longest-name-first reading is not their reading (a name, its count and the start of the next name spell a
+    longer name), each with every other name in front and behind and several counts on the second name"""
+    names = sorted(_glycan_names())
+    special = []
+    for a in names:
+        for b in names:
+            for ca in (1, 2, 5, 12):
+                if a != b:
+                    s = f'{a}{ca}{b}3'
+                    tk = tokenisations(s)
+                    if len(tk) == 1 and greedy_reading(s) != [nm for nm, _v in tk[0]]:
+                        special.append((a, ca, b))
+    for a, ca, b in special:
+        for cb in (1, 2, 12, 2.5, -1, 10.25):
+            for p in [None] + names:
+                for q in [None] + names:
+                    present = [x for x in (p, a, b, q) if x]
+                    if len(set(present)) < len(present):
+                        continue
+                    yield {'glycan': ([[p, 2]] if p else []) + [[a, ca], [b, cb]] + ([[q, 3]] if q else [])}
 
 
 def parts(tier):
     n = 8000 if tier == 'quick' else 400000
     return [
         Part(name='glycan-pairs', kind='enum', check_case=check_glycan, cases=glycan_pair_cases, exhaustive=True, shards=16,
-             space='every ordered pair of the 47 monosaccharide names and synonyms x first count in {1,2,5,12,-1,2.5} x second count in {1,3}'),
+             space='every ordered pair of the 47 monosaccharide names and synonyms x first and second count in {1,2,5,12,-1,2.5}'),
+        Part(name='glycan-contexts', kind='enum', check_case=check_glycan, cases=glycan_context_cases, exhaustive=True, shards=16,
+             space='every pair of names whose longest-name-first reading is not its only reading x second count in {1,2,12,2.5,-1,10.25} x any other name (or none) in front x any other name (or none) behind'),
         Part(name='chem', kind='hyp', check_case=check_chem, strategy=chem_strategy, examples=n),
         Part(name='glycan', kind='hyp', check_case=check_glycan, strategy=glycan_strategy, examples=n // 2),
     ]
